@@ -188,7 +188,7 @@ type effects struct {
 
 // rootComp names the heap component a store through addr writes (syntactic).
 func (fr *Frame) storeComps(addr ssa.Value, eff *effects) {
-	tm := fr.R.TM
+	_ = fr.R.TM
 	switch a := addr.(type) {
 	case *ssa.Alloc:
 		if isRegisterAlloc(a) {
@@ -219,15 +219,15 @@ func (fr *Frame) storeComps(addr ssa.Value, eff *effects) {
 		st := types.Unalias(pt).Underlying().(*types.Struct)
 		eff.comps[fieldComp(pt, st.Field(root.Field).Name())] = true
 		if fr.isOpaqueStruct(pt) {
-			eff.comps[boxComp(tm.SortOf(pt))] = true
+			eff.comps[boxComp(pt)] = true
 		}
 	case *ssa.IndexAddr:
 		switch u := types.Unalias(a.X.Type()).Underlying().(type) {
 		case *types.Slice:
-			eff.comps[elemsComp(tm.SortOf(u.Elem()))] = true
+			eff.comps[elemsComp(u.Elem())] = true
 		case *types.Pointer:
 			at := types.Unalias(u.Elem()).Underlying().(*types.Array)
-			eff.comps[elemsComp(tm.SortOf(at.Elem()))] = true
+			eff.comps[elemsComp(at.Elem())] = true
 		}
 	case *ssa.Global:
 		eff.comps[fr.globalComp(a)] = true
@@ -239,10 +239,10 @@ func (fr *Frame) storeComps(addr ssa.Value, eff *effects) {
 
 // typeComps adds the components written by a store of a whole value of type t through a pointer.
 func (fr *Frame) typeComps(t types.Type, eff *effects, direct bool) {
-	tm := fr.R.TM
+	_ = fr.R.TM
 	if st, ok := types.Unalias(t).Underlying().(*types.Struct); ok {
 		if fr.isOpaqueStruct(t) {
-			eff.comps[boxComp(tm.SortOf(t))] = true
+			eff.comps[boxComp(t)] = true
 		}
 		for i := 0; i < st.NumFields(); i++ {
 			eff.comps[fieldComp(t, st.Field(i).Name())] = true
@@ -250,10 +250,10 @@ func (fr *Frame) typeComps(t types.Type, eff *effects, direct bool) {
 		return
 	}
 	if at, ok := types.Unalias(t).Underlying().(*types.Array); ok {
-		eff.comps[elemsComp(tm.SortOf(at.Elem()))] = true
+		eff.comps[elemsComp(at.Elem())] = true
 		return
 	}
-	eff.comps[boxComp(tm.SortOf(t))] = true
+	eff.comps[boxComp(t)] = true
 }
 
 func (fr *Frame) blockEffects(blocks []*ssa.BasicBlock, depth int) *effects {
@@ -273,18 +273,16 @@ func (fr *Frame) blockEffects(blocks []*ssa.BasicBlock, depth int) *effects {
 				}
 			case *ssa.MapUpdate:
 				mt := types.Unalias(in.Map.Type()).Underlying().(*types.Map)
-				ks, vs := fr.mapSorts(mt)
-				eff.comps[mapDomComp(ks, vs)] = true
-				eff.comps[mapValComp(ks, vs)] = true
+				eff.comps[mapDomComp(mt)] = true
+				eff.comps[mapValComp(mt)] = true
 				eff.comps[mapLenComp] = true
 			case *ssa.MakeMap:
 				mt := types.Unalias(in.Type()).Underlying().(*types.Map)
-				ks, vs := fr.mapSorts(mt)
-				eff.comps[mapDomComp(ks, vs)] = true
+				eff.comps[mapDomComp(mt)] = true
 				eff.comps[mapLenComp] = true
 				eff.alloc = true
 			case *ssa.MakeSlice:
-				eff.comps[elemsComp(tm.SortOf(types.Unalias(in.Type()).Underlying().(*types.Slice).Elem()))] = true
+				eff.comps[elemsComp(types.Unalias(in.Type()).Underlying().(*types.Slice).Elem())] = true
 				eff.alloc = true
 			case *ssa.MakeChan:
 				eff.comps[chanClosedComp] = true
@@ -294,7 +292,7 @@ func (fr *Frame) blockEffects(blocks []*ssa.BasicBlock, depth int) *effects {
 			case *ssa.Convert:
 				if tm.SortOf(in.Type()) == SSlice && tm.SortOf(in.X.Type()) == SString {
 					eff.alloc = true
-					eff.comps[elemsComp(tm.SortOf(types.Unalias(in.Type()).Underlying().(*types.Slice).Elem()))] = true
+					eff.comps[elemsComp(types.Unalias(in.Type()).Underlying().(*types.Slice).Elem())] = true
 				}
 			case *ssa.Defer:
 				eff.defers = true
@@ -314,7 +312,7 @@ func (fr *Frame) blockEffects(blocks []*ssa.BasicBlock, depth int) *effects {
 }
 
 func (fr *Frame) callEffects(cc *ssa.CallCommon, eff *effects, depth int) {
-	tm := fr.R.TM
+	_ = fr.R.TM
 	for _, n := range fr.calleeNames(cc) {
 		eff.called[n] = true
 	}
@@ -322,15 +320,14 @@ func (fr *Frame) callEffects(cc *ssa.CallCommon, eff *effects, depth int) {
 		switch b.Name() {
 		case "append":
 			st := types.Unalias(cc.Args[0].Type()).Underlying().(*types.Slice)
-			eff.comps[elemsComp(tm.SortOf(st.Elem()))] = true
+			eff.comps[elemsComp(st.Elem())] = true
 			eff.alloc = true
 		case "copy":
 			st := types.Unalias(cc.Args[0].Type()).Underlying().(*types.Slice)
-			eff.comps[elemsComp(tm.SortOf(st.Elem()))] = true
+			eff.comps[elemsComp(st.Elem())] = true
 		case "delete", "clear":
 			if mt, ok := types.Unalias(cc.Args[0].Type()).Underlying().(*types.Map); ok {
-				ks, vs := fr.mapSorts(mt)
-				eff.comps[mapDomComp(ks, vs)] = true
+				eff.comps[mapDomComp(mt)] = true
 				eff.comps[mapLenComp] = true
 			}
 		case "close":
